@@ -101,6 +101,7 @@ def run_job(spec):
         covers = set()
         deadline = t0 + spec.get('job_timeout_s', 3600)
         nx = 0
+        sat_count = {}
         while work:
             if time.time() > deadline:
                 out['errors'].append('job timeout with %d prefixes left' % len(work))
@@ -150,6 +151,11 @@ def run_job(spec):
                     out['unsat'] += 1
                     continue
                 nontrivial = True
+                fam = gname.split('[')[0]
+                if sat_count.get(fam, 0) >= 4:
+                    # fail fast: this goal family already has several counterexamples in this job
+                    out['skipped_after_cex'] = out.get('skipped_after_cex', 0) + 1
+                    continue
                 _t0 = time.time()
                 r, info = solve.prove_isolated(cons, gterm, spec.get('query_timeout_s', 20), ctx.inputs, ctx.regions,
                                                ctx.hints, key=(spec['harness'], gname.split('[')[0]))
@@ -174,6 +180,8 @@ def run_job(spec):
                         out['xcheck'][xr] += 1
                 elif r == 'sat':
                     out['sat'] += 1
+                    if not rec.get('regions'):      # region-tagged models may be instances of a recorded finding
+                        sat_count[fam] = sat_count.get(fam, 0) + 1
                     if len(out['cex']) < 40:
                         out['cex'].append(rec)
                 else:
@@ -217,6 +225,11 @@ def replay_record(rec):
     except Exception as e:
         res['error'] = '%s: %s' % (type(e).__name__, e)
         res['trace'] = traceback.format_exc()[-1500:]
+        if rec.get('goal') != '*' and '/repo/' in res['trace'].replace(REPO, '/repo') and 'taurex' in res['trace']:
+            # the real code raised on the solver's (precondition-satisfying) inputs where the property demands a
+            # value: the counterexample reproduces as an exception
+            res['reproduced'] = True
+            res['failed_goals'] = ['<exception in the code under test: %s>' % res['error'][:120]]
         return res
     res['goals'] = len(ctx.goals)
     res['failed_goals'] = [g[0] for g in ctx.goals if not g[1]]
@@ -289,6 +302,11 @@ def replay_batch_main(lst):
 # ------------------------------------------------------------------------------------------
 
 def _job_entry(spec, q):
+    try:
+        from symx.solve import die_with_parent
+        die_with_parent()
+    except Exception:
+        pass
     try:
         q.put(run_job(spec))
     except BaseException as e:      # noqa
